@@ -61,7 +61,9 @@ func mixedCallers(r *rand.Rand) []DBCaller {
 	cs := []DBCaller{{ID: 1, Rules: superRules()}}
 	// incl. near misses: "a*a" must not match "a", "a/*/b" must not match "a/b" (the literal pieces may not overlap)
 	pats := [][]byte{[]byte("*"), []byte("a"), []byte("b"), []byte("a/*"), []byte("a*"), []byte("*/q"), []byte("zzz"), []byte("_internal/*"), []byte(""),
-		[]byte("a*a"), []byte("a/*/b"), []byte("a*b"), []byte("*b*b")}
+		[]byte("a*a"), []byte("a/*/b"), []byte("a*b"), []byte("*b*b"),
+		// characters a pattern language might give a meaning to: here they are literal ("a.b" is not "a/b")
+		[]byte("a.b"), []byte("p.q"), []byte("a|b"), []byte("[ab]"), []byte("a/.*")}
 	n := 2 + r.IntN(3)
 	for i := 0; i < n; i++ {
 		var rules []c07Rule
